@@ -36,6 +36,7 @@ import (
 	"time"
 
 	dawn "github.com/pgavlin/dawn"
+	"github.com/pgavlin/dawn/label"
 	"go.starlark.net/starlark"
 )
 
@@ -458,11 +459,18 @@ func probeKeys(c config, cache starlark.Value) map[int]keyProbe {
 	return ps
 }
 
+// freezeCaches: the caches of the following runs are frozen before use, as Starlark freezes a module-level
+// `cache = Cache()` when the module finishes loading — target bodies only ever see frozen caches
+var freezeCaches = false
+
 func newCache() starlark.Value {
 	th := &starlark.Thread{Name: "main"}
 	c, err := starlark.Call(th, dawn.VerifCacheBuiltin, nil, nil)
 	if err != nil {
 		panic(err)
+	}
+	if freezeCaches {
+		c.Freeze()
 	}
 	return c
 }
@@ -551,6 +559,13 @@ func runNoHook(c config, timeout time.Duration) *result {
 	dawn.VerifHook = nil
 	defer func() { dawn.VerifHook = saved }()
 	return runFreeT(c, timeout)
+}
+
+// the same on a cache that was frozen first
+func runNoHookFrozen(c config, timeout time.Duration) *result {
+	freezeCaches = true
+	defer func() { freezeCaches = false }()
+	return runNoHook(c, timeout)
 }
 
 func runFreeT(c config, timeout time.Duration) *result {
@@ -861,14 +876,24 @@ func main() {
 			fmt.Fprintln(os.Stderr, err)
 			os.Exit(2)
 		}
-		c, err := parseConfig(in.Progs)
+		var c config
+		var err error
+		if in.Mode != "project" {
+			c, err = parseConfig(in.Progs)
+		}
 		if err != nil {
 			fmt.Fprintln(os.Stderr, err)
 			os.Exit(2)
 		}
-		if in.Mode == "nohook" {
+		if in.Mode == "project" {
+			replayProject(in.Progs)
+		} else if in.Mode == "nohook" || in.Mode == "nohook-frozen" {
 			for i := 0; i < 2000 && nviol == 0; i++ {
-				judge(c, runNoHook(c, 10*time.Second), "nohook")
+				if in.Mode == "nohook-frozen" {
+					judge(c, runNoHookFrozen(c, 10*time.Second), in.Mode)
+				} else {
+					judge(c, runNoHook(c, 10*time.Second), in.Mode)
+				}
 			}
 			fmt.Fprintf(out, "# nohook replay: %d runs judged, %d violations\n", stats["judged_runs"], nviol)
 		} else if in.Mode == "free" {
@@ -922,6 +947,12 @@ func main() {
 			res := runNoHook(c, 2*time.Second)
 			stats["nohook_sequential"]++
 			judge(c, res, "nohook")
+			// … and on a frozen cache (what every target body sees of a module-level cache)
+			if k0 <= 1 {
+				res = runNoHookFrozen(c, 2*time.Second)
+				stats["nohook_sequential_frozen"]++
+				judge(c, res, "nohook-frozen")
+			}
 		}
 	}
 	nNoHook := 3000
@@ -937,10 +968,17 @@ func main() {
 				}
 			}
 		}
+		if i%3 == 2 {
+			res := runNoHookFrozen(c, 10*time.Second)
+			stats["nohook_concurrent_frozen"]++
+			judge(c, res, "nohook-frozen")
+			continue
+		}
 		res := runNoHook(c, 10*time.Second)
 		stats["nohook_concurrent"]++
 		judge(c, res, "nohook")
 	}
+	projectStream(r, thorough)
 	stats["nohook_ms"] = int(time.Since(tn).Milliseconds())
 	out.Flush()
 	if hangsFound > 0 {
@@ -1104,4 +1142,163 @@ func exhaustiveSampled(c config, max, traceEvery, ci int) (int, bool, map[string
 		}
 		prefix = append(append([]int{}, res.choices[:i]...), res.choices[i]+1)
 	}
+}
+
+// ---------------------------------------------------------------- end to end: a real project
+// BUILD.dawn creates `cache = Cache()` at module level (frozen when the module has loaded) and, while loading, computes
+// the keys listed in `pre`; every target body calls cache.once(key, …) with a callable that counts its invocations
+// through a builtin of LoadOptions.Builtins; the project is built with Project.Run (the runner evaluates independent
+// targets in parallel). Judge: per key at most one successful invocation in the process, all targets see its value.
+type projSpec struct {
+	Targets []int `json:"targets"` // key used by each target body
+	Pre     []int `json:"pre"`     // keys computed while the module loads
+	Keys    int   `json:"keys"`
+}
+
+func (p projSpec) String() string {
+	b, _ := json.Marshal(p)
+	return string(b)
+}
+
+func (p projSpec) build() string {
+	var b strings.Builder
+	b.WriteString("cache = Cache()\n\n")
+	for k := 0; k < p.Keys; k++ {
+		fmt.Fprintf(&b, "def compute%d():\n    return count(\"k%d\")\n\n", k, k)
+	}
+	for _, k := range p.Pre {
+		fmt.Fprintf(&b, "record(\"load\", \"k%d\", cache.once(\"k%d\", compute%d))\n", k, k, k)
+	}
+	var deps []string
+	for i, k := range p.Targets {
+		fmt.Fprintf(&b, "\n@target(name=\"t%d\")\ndef t%d():\n    record(\"t%d\", \"k%d\", cache.once(\"k%d\", compute%d))\n", i, i, i, k, k, k)
+		deps = append(deps, fmt.Sprintf("\":t%d\"", i))
+	}
+	fmt.Fprintf(&b, "\n@target(name=\"default\", deps=[%s])\ndef default():\n    pass\n", strings.Join(deps, ", "))
+	return b.String()
+}
+
+func runProject(p projSpec) {
+	stats["project_builds"]++
+	root, err := os.MkdirTemp("", "verif-cache-proj")
+	if err != nil {
+		panic(err)
+	}
+	defer os.RemoveAll(root)
+	os.WriteFile(root+"/.dawnconfig", nil, 0o644)
+	os.WriteFile(root+"/BUILD.dawn", []byte(p.build()), 0o644)
+	var mu sync.Mutex
+	calls := map[string]int{}
+	seen := map[string][]string{} // key -> values handed to the callers
+	count := starlark.NewBuiltin("count", func(th *starlark.Thread, b *starlark.Builtin, args starlark.Tuple, kwargs []starlark.Tuple) (starlark.Value, error) {
+		var key string
+		if err := starlark.UnpackPositionalArgs("count", args, kwargs, 1, &key); err != nil {
+			return nil, err
+		}
+		mu.Lock()
+		calls[key]++
+		n := calls[key]
+		mu.Unlock()
+		runtime.Gosched()
+		return starlark.String(fmt.Sprintf("%s#%d", key, n)), nil
+	})
+	record := starlark.NewBuiltin("record", func(th *starlark.Thread, b *starlark.Builtin, args starlark.Tuple, kwargs []starlark.Tuple) (starlark.Value, error) {
+		var who, key string
+		var v starlark.Value
+		if err := starlark.UnpackPositionalArgs("record", args, kwargs, 3, &who, &key, &v); err != nil {
+			return nil, err
+		}
+		mu.Lock()
+		seen[key] = append(seen[key], who+"="+v.String())
+		mu.Unlock()
+		return starlark.None, nil
+	})
+	fail := func(kind, detail string) {
+		nviol++
+		stats["violations"]++
+		if nviol > 10 {
+			return
+		}
+		in := map[string]any{"progs": p.String(), "mode": "project", "schedule": nil}
+		b, _ := json.Marshal(map[string]any{"kind": kind, "detail": detail, "trace": "", "input": in})
+		fmt.Fprintf(out, "V\t%s\n", b)
+		out.Flush()
+	}
+	type outT struct{ err error }
+	ch := make(chan outT, 1)
+	go func() {
+		proj, err := dawn.Load(root, &dawn.LoadOptions{Builtins: starlark.StringDict{"count": count, "record": record}})
+		if err != nil {
+			ch <- outT{fmt.Errorf("load: %w", err)}
+			return
+		}
+		def, _ := label.Parse("//:default")
+		ch <- outT{proj.Run(def, nil)}
+	}()
+	select {
+	case o := <-ch:
+		if o.err != nil {
+			fail("project-build-failed", o.err.Error())
+			return
+		}
+	case <-time.After(30 * time.Second):
+		fail("hang", "Load + Run of the project did not return")
+		hangsFound++
+		return
+	}
+	mu.Lock()
+	defer mu.Unlock()
+	callers := 0
+	for k := 0; k < p.Keys; k++ {
+		key := fmt.Sprintf("k%d", k)
+		callers += len(seen[key])
+		if calls[key] > 1 {
+			fail("computed-twice", fmt.Sprintf("key %s: the callable ran %d times in one build; callers saw %v", key, calls[key], seen[key]))
+		}
+		vals := map[string]bool{}
+		for _, sv := range seen[key] {
+			vals[sv[strings.Index(sv, "=")+1:]] = true
+		}
+		if len(vals) > 1 {
+			fail("different-value", fmt.Sprintf("key %s: callers saw %v", key, seen[key]))
+		}
+	}
+	if callers != len(p.Targets)+len(p.Pre) {
+		fail("project-incomplete", fmt.Sprintf("%d of %d calls of once were made", callers, len(p.Targets)+len(p.Pre)))
+	}
+	stats["project_once_calls"] += callers
+}
+
+func projectStream(r *rng, thorough bool) {
+	t0 := time.Now()
+	n := 60
+	if thorough {
+		n = 1500
+	}
+	for i := 0; i < n && hangsFound < 3; i++ {
+		p := projSpec{Keys: 1 + r.below(3)}
+		nt := 2 + r.below(7)
+		for j := 0; j < nt; j++ {
+			p.Targets = append(p.Targets, r.below(p.Keys))
+		}
+		for k := 0; k < p.Keys; k++ {
+			if r.below(3) == 0 {
+				p.Pre = append(p.Pre, k)
+			}
+		}
+		runProject(p)
+	}
+	stats["project_ms"] = int(time.Since(t0).Milliseconds())
+}
+
+func replayProject(spec string) {
+	var p projSpec
+	if err := json.Unmarshal([]byte(spec), &p); err != nil {
+		fmt.Fprintln(os.Stderr, err)
+		os.Exit(2)
+	}
+	for i := 0; i < 20 && nviol == 0; i++ {
+		runProject(p)
+	}
+	fmt.Fprintf(out, "# project replay: %d builds, %d violations\n", stats["project_builds"], nviol)
 }
